@@ -208,6 +208,11 @@ func (w *wal) read() (WALBatch, error) {
 func (w *wal) flush(batch WALBatch) error {
 	tupleLenBuf := make([]byte, 4)
 
+	// the records of a batch are appended with a single write: a record is
+	// never on disk without its body, and a record that moves a table's
+	// root never without the catalog record that follows it
+	buf := &bytes.Buffer{}
+
 	for _, tuple := range batch {
 		tupleBuf, err := tuple.encode()
 		if err != nil {
@@ -217,17 +222,15 @@ func (w *wal) flush(batch WALBatch) error {
 		tupleLen := len(tupleBuf.Bytes())
 		binary.LittleEndian.PutUint32(tupleLenBuf, uint32(tupleLen))
 
-		vWalWrite(0, len(tupleLenBuf))
-		if n, err := w.reader.Write(tupleLenBuf); err != nil {
-			return err
-		} else if n != len(tupleLenBuf) {
-			panic("bytes written differs from expected buffer length")
-		}
+		buf.Write(tupleLenBuf)
+		buf.Write(tupleBuf.Bytes())
+	}
 
-		vWalWrite(1, tupleLen)
-		if n, err := w.reader.Write(tupleBuf.Bytes()); err != nil {
+	if buf.Len() > 0 {
+		vWalWrite(0, buf.Len())
+		if n, err := w.reader.Write(buf.Bytes()); err != nil {
 			return err
-		} else if n != tupleLen {
+		} else if n != buf.Len() {
 			panic("bytes written differs from expected buffer length")
 		}
 
